@@ -21,7 +21,7 @@ ASSUMPTIONS = [
 ]
 SELFCHECKS = [ref.selfcheck]
 
-NEAR = b"0OIl +/_-"
+NEAR = b"0OIl +/_-\n\r\t\x00\x7f\x80\xff"
 
 
 def _lib():
@@ -124,7 +124,7 @@ def bytes_cases(draw):
 
 @st.composite
 def string_cases(draw):
-    kind = draw(st.sampled_from(["alpha", "short", "mut-check", "mut-check", "mut-check", "valid", "raw", "bad-cksum-byte"]))
+    kind = draw(st.sampled_from(["alpha", "short", "mut-check", "mut-check", "mut-check", "valid", "raw", "bad-cksum-byte", "affix"]))
     if kind == "alpha":
         n = draw(st.integers(0, 180))
         s = bytes(draw(st.lists(st.sampled_from(list(ref.ALPHABET.encode())), min_size=n, max_size=n)))
@@ -140,6 +140,11 @@ def string_cases(draw):
     base = ref.check_encode(payload)
     if kind == "valid":
         return {"kind": kind, "s": hx(base), "base": hx(base)}
+    if kind == "affix":
+        # a valid encoding with ONE foreign byte glued to its end or start (newline, NUL, space, look-alikes, high bytes)
+        ch = bytes([draw(st.sampled_from(list(NEAR)))])
+        s = base + ch if draw(st.booleans()) else ch + base
+        return {"kind": kind, "s": hx(s), "base": hx(base), "kinds": ["affix:" + ("end" if s.startswith(base) else "start")]}
     if kind == "bad-cksum-byte":
         # exactly one of the four checksum bytes altered, re-encoded: in-alphabet, invalid by construction
         ck = bytearray(ref.checksum(payload))
@@ -150,7 +155,7 @@ def string_cases(draw):
     return {"kind": kind, "s": hx(s), "base": hx(base), "kinds": kinds}
 
 
-def targets(tier):
+def _targets(tier):
     return [
         Target(
             "bytes-roundtrip",
@@ -164,6 +169,17 @@ def targets(tier):
             check_string,
             strategy=lambda tier: string_cases(),
             budget={"quick": 24000, "thorough": 600000},
-            required=["nt:mutated", "nt:non-alphabet", "nt:expect-accept", "expect-reject", "nt:shorter-than-checksum"],
+            required=["nt:mutated", "nt:non-alphabet", "nt:expect-accept", "expect-reject", "nt:shorter-than-checksum", "mut:affix:end", "mut:affix:start"],
         ),
     ]
+
+
+def targets(tier):
+    ts = _targets(tier)
+    if tier == "thorough":
+        # coverage-guided add-on (atheris/libFuzzer through Hypothesis' fuzz_one_input); skipped with a class label if atheris is missing
+        from vf import fuzz
+
+        for name in ['string-accept', 'bytes-roundtrip']:
+            ts.append(fuzz.campaign_target(PROPERTY, name, campaigns=16, runs=30000))
+    return ts
